@@ -578,6 +578,293 @@ class SecAndStartModification(Contract):
 
 
 # ----------------------------------------------------------------------------
+# the gate in front of the modifications: MiscleavedNodes.join_miscleaved_peptides
+# ----------------------------------------------------------------------------
+class _GhostBag:
+    """a dict / list the gate only fills: membership and emptiness are unconstrained (fresh at every question); the size is
+    unknown but fixed between two writes"""
+    def __init__(self, name):
+        self.name = name
+        self.n = None
+
+    def size(self, I):
+        if self.n is None:
+            self.n = I.e.int(f'len_{self.name}')
+            I.e.assume(self.n >= 0)
+        return self.n
+
+    def sym_contains(self, I, item):
+        return I.e.bool(f'{self.name}_has_key')
+
+    def sym_setitem(self, I, key, v):
+        self.n = None
+
+    def sym_truth(self, I):
+        return self.size(I) > 0
+
+    def sym_len(self, I):
+        return self.size(I)
+
+    def sym_iadd(self, I, other):
+        self.n = None
+        return self
+
+    def sym_method(self, I, name, a, k):
+        if name == 'values':
+            return FnView(self.size(I), lambda i: SymObj('VariantRecord', _of=self.name), tag=f'{self.name}.values()')
+        if name == 'append':
+            self.n = None
+            return None
+        raise Unsupported(f'{self.name}.{name}')
+
+
+class _Joined(View):
+    """seqs_to_join: the strings of the nodes of one series, in order; only the total length and the first string are followed"""
+    def __init__(self, owner):
+        self.owner = owner
+
+    def length(self):
+        return self.owner._cur.qn
+
+    def get(self, i):
+        return self.owner._cur.node_str(i)
+
+    def sym_method(self, I, name, a, k):
+        if name == 'append':
+            return None
+        raise Unsupported(f'seqs_to_join.{name}')
+
+
+@register
+class JoinGate(Contract):
+    """for every series of miscleaved nodes that has an ORF and passes the variant requirements, the joined peptide reaches
+    translational_modification unless (a) no selenocysteine is involved and neither its length nor, with a leading M, its length minus
+    one lies within the length limits, or (b) it is not in the pool yet and is a canonical peptide (denylist) - where at a start codon both the
+    peptide and its M-removed form must be canonical for it to be dropped; it is skipped only for these reasons, the modification step
+    gets exactly the joined peptide, the denylist, the pool, the flags and the selenocysteines collected, and everything it yields is
+    yielded on"""
+    path, qualname, props = VPD, 'MiscleavedNodes.join_miscleaved_peptides', ('C04', 'C05', 'C08', 'C09')
+    max_paths = 6000
+    cover_any = True
+    assumptions = ('havoc: the variant bookkeeping of the gate (which variants label the peptide, ORF validity, circRNA accounting) is '
+                   'unconstrained: dictionaries and lists it fills answer every membership / emptiness question arbitrarily',
+                   'summary: seq_has_valid_size is its proved contract (C05) seen as a predicate of the size; translational_modification is its '
+                   'own contract (SecAndStartModification); str.join of the node strings has the summed length (loop invariant size = total)',
+                   'quick tier explores is_circ_rna = False only; the thorough tier both values')
+
+    def setup(self, I):
+        e = I.e
+        st = types.SimpleNamespace(calls=[], vs_calls=[], seq_made=[], yields=[])
+        st.qn = e.int('n_nodes')
+        e.assume(st.qn >= 1)
+        st.LEN = z3.Function('node_len', I_, I_)
+        st.CUM = z3.Function('cum_len', I_, I_)
+        # CUM is the running total of the node string lengths; its defining equation is instantiated at the loop index only
+        # (no quantified hypothesis, so that a broken gate is refuted with a model instead of coming out unknown)
+        e.assume(z3.And(st.CUM(0) == 0, st.LEN(0) >= 0, st.CUM(st.qn) >= 0))
+        zz = lambda i: i if is_z3(i) else z3.IntVal(i)
+        st.strs = {}
+
+        def node_str(i):
+            i = zz(i)
+            k = z3.simplify(i).sexpr()
+            if k not in st.strs:
+                st.strs[k] = PStr.sym(e, 'node_seq', st.LEN(i))
+            return st.strs[k]
+        st.node_str = node_str
+        st.VS = z3.Function('size_within_limits', I_, B_)
+        st.is_start, st.check_variants, st.check_external, st.truncate_sec, st.check_orf = (e.bool(n) for n in
+            ('is_start_codon', 'check_variants', 'check_external_variants', 'truncate_sec', 'check_orf'))
+        # quick tier: linear transcripts; thorough tier: the circRNA accounting branches of the gate as well (about 7x the paths)
+        st.circ = e.bool('is_circ_rna') if getattr(I, 'tier', 'quick') == 'thorough' else False
+        st.pool, st.deny = types.SimpleNamespace(), types.SimpleNamespace()
+        st.in_pool, st.in_deny, st.tail_in_deny = e.bool('joined_in_pool'), e.bool('joined_in_denylist'), e.bool('joined_without_M_in_denylist')
+
+        def contains(which):
+            def f(I2, item):
+                if item is getattr(st, 'J', None):
+                    return st.in_pool if which == 'pool' else st.in_deny
+                if which == 'deny' and isinstance(item, PStr) and str(item.tag).startswith('joined[') and str(item.tag) != 'joined':
+                    return st.tail_in_deny
+                raise Unsupported(f'membership of something else than the joined peptide in the {which}: {item!r} {getattr(item, "tag", None)!r}')
+            return f
+        st.pool.sym_contains, st.deny.sym_contains = contains('pool'), contains('deny')
+        nodes = FnView(st.qn, lambda i: SymObj('PVGNode', i=zz(i), seq=SymObj('AASeq', seq=node_str(i)),
+                                               selenocysteines=FnView(e.int('n_sec_here'), lambda t: SymObj('SecLoc'), tag='node secs'),
+                                               variants=FnView(e.int('n_node_variants'), lambda t: SymObj('VarWithCoord', is_silent=e.bool('silent'),
+                                                                                                    upstream_cleavage_altering=e.bool('uca'),
+                                                                                                    variant=SymObj('VariantRecord', id=SymObj('VarId'))), tag='node variants'),
+                                               upstream_indel_map=types.SimpleNamespace(sym_method=lambda I2, name, a, k: (
+                                                   FnView(e.int('n_indels'), lambda t: SymObj('VariantRecord', id=SymObj('VarId')), tag='indels') if I2.e.branch(I2.e.bool('has_indels'), 'indels') else None))),
+                       tag='queue')
+        st.queue = nodes
+        nser = e.int('n_series')
+        e.assume(nser >= 0)
+        series = FnView(nser, lambda k: SymObj('Series', nodes=nodes, additional_variants=FnView(e.int('n_series_add'), lambda t: SymObj('VariantRecord', id=SymObj('VarId')), tag='series add')), tag='series')
+        norf = e.int('n_orfs')
+        e.assume(norf >= 0)
+        orfs = FnView(norf, lambda k: SymObj('PVGOrf', orf=(e.int('orf_a'), e.int('orf_b')), start_gain=FnView(e.int('n_sg'), lambda t: SymObj('VariantRecord', id=SymObj('VarId')), tag='sg'),
+                                             cleavage_gain=FnView(e.int('n_cg'), lambda t: SymObj('VariantRecord', id=SymObj('VarId')), tag='cg')), tag='orfs')
+        st.self = SymObj('MiscleavedNodes', data=series, orfs=orfs, is_circ_rna=st.circ, leading_node=SymObj('PVGNode', i=-1), subgraphs=SymObj('Subgraphs'),
+                         tx_id='ENST_T', gene_id='ENSG_G')
+        st.add_vars = FnView(e.int('n_additional_variants'), lambda t: SymObj('VariantRecord', id=SymObj('VarId')), tag='additional variants')
+        st.args = [st.self]
+        st.kwargs = dict(pool=st.pool, check_variants=st.check_variants, additional_variants=st.add_vars, denylist=st.deny, is_start_codon=st.is_start,
+                         circ_rna=SymObj('CircModel'), truncate_sec=st.truncate_sec, check_external_variants=st.check_external, check_orf=st.check_orf)
+        self._cur = st
+        return st
+
+    @property
+    def models(self):
+        c = self
+
+        def inst(reg):
+            reg.ctor_('VariantPeptideMetadata', lambda I, a, k: SymObj('VariantPeptideMetadata', orf=None, is_pure_circ_rna=None, check_orf=k.get('check_orf')))
+
+            def vs(I, o, a, k):
+                st = c._cur
+                size = k.get('size')
+                if size is None or a:
+                    raise Unsupported('seq_has_valid_size on a sequence')
+                st.vs_calls.append(size)
+                return st.VS(size)
+            reg.method_('MiscleavedNodes', 'seq_has_valid_size', vs)
+
+            def mk_seq(I, a, k):
+                st = c._cur
+                v = a[0]
+                ok = getattr(v, 'tag', None) == 'join' or (isinstance(v, OpaqueStr) and v.parts and v.parts[0] == 'join')
+                I.e.prove('C04/gate/candidate=join-of-the-node-strings', ok)
+                J = PStr.sym(I.e, 'joined', st.CUM(st.qn))
+                st.J = J
+                st.seq_made.append(J)
+                orig = J.sym_getitem
+
+                return J
+            reg.ext_('Seq', mk_seq)
+            reg.ext_('Bio.Seq.Seq', mk_seq)
+
+            def tm(I, o, a, k):
+                st = c._cur
+                st.calls.append((a, k))
+                n = I.e.int('n_forms')
+                I.e.assume(n >= 0)
+                st.results = FnView(n, lambda t: (SymObj('FormSeq', t=t if is_z3(t) else z3.IntVal(t)), SymObj('FormMeta', t=t if is_z3(t) else z3.IntVal(t))), tag='forms')
+                return st.results
+            reg.method_('MiscleavedNodes', 'translational_modification', tm)
+            reg.method_('PVGOrf', 'is_valid_orf_to_misc_nodes', lambda I, o, a, k: I.e.bool('orf_valid_for_nodes'))
+            reg.method_('PVGNode', 'is_missing_any_variant', lambda I, o, a, k: I.e.bool('node_missing_variant'))
+            reg.method_('PVGNode', 'get_cleavage_gain_from_downstream', lambda I, o, a, k: FnView(I.e.int('n_cgd'), lambda t: SymObj('VariantRecord', id=SymObj('VarId')), tag='cgd'))
+            reg.method_('PVGNode', 'any_unaccounted_downstream_cleavage_or_stop_altering', lambda I, o, a, k: I.e.bool('unaccounted_downstream'))
+            reg.method_('VariantRecord', 'is_circ_rna', lambda I, o, a, k: I.e.bool('variant_is_circ'))
+            reg.method_('SecLoc', 'shift', lambda I, o, a, k: SymObj('SecLoc'))
+            reg.on_yield = c.on_yield
+            reg.set_hooks.append(lambda v: (lambda I, v: v) if isinstance(v, FnView) and v.tag == 'map' else None)
+            # {x for x in variants.values() if ...}: another unconstrained collection of variants
+            reg.comprehension_hooks.append(lambda I, node, env, view, kind: _GhostBag('filtered_variants')
+                                           if node.generators[0].ifs and str(getattr(view, 'tag', '')).endswith('.values()') else None)
+        return (inst,)
+
+    def on_yield(self, I, frame, v):
+        st = self._cur
+        st.yields.append(v)
+        ok = isinstance(v, tuple) and len(v) == 2 and isinstance(v[0], SymObj) and v[0].cls == 'FormSeq' and isinstance(v[1], SymObj) and v[1].cls == 'FormMeta'
+        I.e.prove('C04/gate/only-forms-of-the-modification-step-of-this-series-are-yielded',
+                  ok and len(st.calls) == st.m[0] + 1 and z3.is_true(z3.simplify(v[0].fields['t'] == v[1].fields['t'])))
+
+    def head10(self, I, env, k):
+        self._cur.ymark = len(self._cur.yields)
+
+    def step10(self, I, env, k):
+        st = self._cur
+        ys = st.yields[st.ymark:]
+        return [('k-th-form-yielded-exactly-once', len(ys) == 1 and isinstance(ys[0], tuple) and z3.is_true(z3.simplify(ys[0][0].fields['t'] == k)))]
+
+    # ---- loop 0: series
+    def head0(self, I, env, k):
+        st = self._cur
+        st.m = (len(st.calls), len(st.vs_calls), len(st.seq_made), len(st.yields))
+        st.sec_now = I.e.bool('selenocysteines_collected')
+
+    def size_skip(self, st, size):
+        firstM = st.node_str(0).get(0) == ord('M')
+        return z3.And(z3.Not(st.sec_now), z3.Not(st.VS(size)), z3.Not(z3.And(st.LEN(0) > 0, firstM, st.VS(size - 1))))
+
+    def deny_skip(self, st):
+        return z3.And(z3.Not(st.in_pool), st.in_deny, z3.Or(z3.Not(st.is_start), st.tail_in_deny))
+
+    def step0(self, I, env, k):
+        st = self._cur
+        calls, vsc, made, ys = st.calls[st.m[0]:], st.vs_calls[st.m[1]:], st.seq_made[st.m[2]:], st.yields[st.m[3]:]
+        total = st.CUM(st.qn)
+        items = []
+        if calls:
+            a, kw = calls[0]
+            ok = len(calls) == 1 and len(made) == 1 and not kw and len(a) == 10
+            items.append(('modification-step-called-once-with-ten-arguments', ok))
+            if ok:
+                items.append(('reached-only-if-the-size-gate-and-the-canonical-gate-allow-it', z3.And(z3.Not(self.size_skip(st, total)), z3.Not(self.deny_skip(st)))))
+                items.append(('modification-step-gets-the-joined-peptide-the-denylist-the-pool-and-the-flags',
+                              a[0] is st.J and a[2] is st.deny and a[4] is st.is_start and a[6] is st.check_variants and a[7] is st.check_external and a[8] is st.pool
+                              and a[9] is st.queue and isinstance(a[1], SymObj) and a[1].cls == 'VariantPeptideMetadata' and isinstance(a[5], _SecBag)))
+        else:
+            items.append(('nothing-yielded-without-the-modification-step', not ys))
+            if made:
+                items.append(('dropped-after-joining-only-as-a-canonical-peptide-not-yet-in-the-pool', self.deny_skip(st)))
+            elif vsc:
+                items.append(('dropped-at-the-size-gate-only-if-neither-form-can-have-a-valid-length', z3.And(self.size_skip(st, total), vsc[0] == total)))
+        return items
+
+    # ---- loop 1: nodes of the series
+    def havoc1(self, I, env, k):
+        env['seqs_to_join'] = _Joined(self)
+        env['variants'], env['in_seq_variants'] = _GhostBag('variants'), _GhostBag('in_seq_variants')
+        env['selenocysteines'] = _SecBag(self)
+
+    def inv1(self, I, env, k):
+        st = self._cur
+        size = env['size']
+        return [('size=total-length-of-the-strings-joined-so-far', size == st.CUM(k))]
+
+    def head1(self, I, env, k):
+        st = self._cur
+        I.e.assume(z3.And(st.LEN(k) >= 0, st.CUM(k + 1) == st.CUM(k) + st.LEN(k)))
+
+    def havoc_keep(self, I, env, k):
+        pass
+
+    @property
+    def loops(self):
+        T = lambda I, env, k: []
+        H = self.havoc_keep
+        U = dict(target_after='unknown')
+        return {0: LoopSpec(inv=T, havoc=H, on_head=self.head0, step=self.step0, **U),
+                1: LoopSpec(inv=self.inv1, havoc=self.havoc1, on_head=self.head1, **U),
+                2: LoopSpec(inv=T, havoc=H, **U), 3: LoopSpec(inv=T, havoc=H, **U),
+                # an ORF is chosen only together with `break`: at every loop head none has been chosen yet
+                4: LoopSpec(inv=lambda I, env, k: [('no-orf-chosen-before-the-break', env['valid_orf'] is None)], havoc=H, keep=('valid_orf',), **U),
+                5: LoopSpec(inv=T, havoc=H, **U),
+                6: LoopSpec(inv=T, havoc=H, **U), 7: LoopSpec(inv=T, havoc=H, **U), 8: LoopSpec(inv=T, havoc=H, **U), 9: LoopSpec(inv=T, havoc=H, **U),
+                10: LoopSpec(inv=T, havoc=H, on_head=self.head10, step=self.step10, **U)}
+
+    def post_return(self, I, st, ret):
+        pass
+
+    def post_raise(self, I, st, exc):
+        if os.environ.get('PYVC_DEBUG'):
+            print('RAISE', exc.cls, getattr(exc, 'msg', None), getattr(exc, 'args', None))
+
+
+class _SecBag(_GhostBag):
+    def __init__(self, owner):
+        super().__init__('selenocysteines')
+        self.owner = owner
+
+    def sym_truth(self, I):
+        return self.owner._cur.sec_now
+
+
+# ----------------------------------------------------------------------------
 # sequence-level W>F reassignment (VariantPeptideDict.translational_modification)
 # ----------------------------------------------------------------------------
 class _Reassignments(View):
